@@ -13,10 +13,13 @@ file: key -> action) to fail deterministically.
 
 from __future__ import annotations
 
+import dataclasses
+import enum
 import json
 import os
 import typing as ty
 
+import attrs
 from pydra.compose import python, workflow, shell  # noqa: F401
 
 from . import rt as _rt
@@ -236,6 +239,60 @@ def WfPlanned(x: int, tag: str = "") -> int:
 # ------------------------------------------------------------------ C06 variants
 
 
+class Interp(enum.Enum):
+    NEAREST = "nearest"
+    CUBIC = "cubic"
+
+
+class Thresh:
+    """state only in an underscore-prefixed attribute behind a property"""
+
+    def __init__(self, level):
+        self._level = level
+
+    @property
+    def level(self):
+        return self._level
+
+    def __repr__(self):
+        return f"Thresh({self._level!r})"
+
+
+class Pub:
+    def __init__(self, level):
+        self.level = level
+
+    def __repr__(self):
+        return f"{type(self).__name__}({self.level!r})"
+
+
+class Pub2(Pub):
+    pass
+
+
+class Slotted:
+    __slots__ = ("a", "_b")
+
+    def __init__(self, a, b):
+        self.a = a
+        self._b = b
+
+    def __repr__(self):
+        return f"Slotted({self.a!r},{self._b!r})"
+
+
+@dataclasses.dataclass
+class DC:
+    a: int
+    b: str
+
+
+@attrs.define
+class AT:
+    a: int
+    _b: int = 0
+
+
 def describe(v):
     """canonical, type-revealing description of a value"""
     try:
@@ -303,3 +360,46 @@ def ReadFile(f: _file_type()) -> str:
 def XorTask(a: int | None = None, b: int | None = None, c: int = 0) -> int:
     body("XorTask", (a, b, c))
     return (a or 0) * 10 + (b or 0) * 100 + c
+
+
+# ------------------------------------------------------------------ C29: hooks that leave a trace
+
+
+def _hook_log(name, job):
+    path = os.path.join(os.path.dirname(str(job.cache_root)), f"hooks-{os.path.basename(str(job.cache_root))}.log")
+    fd = _rt.real_os_open(path, os.O_CREAT | os.O_APPEND | os.O_WRONLY, 0o644)
+    try:
+        os.write(fd, f"{name} {job.checksum}\n".encode())
+    finally:
+        os.close(fd)
+
+
+def hook_pre_run(job, *_):
+    _hook_log("pre_run", job)
+
+
+def hook_pre_run_task(job, *_):
+    _hook_log("pre_run_task", job)
+
+
+def hook_post_run_task(job, *_):
+    _hook_log("post_run_task", job)
+
+
+def hook_post_run(job, *_):
+    _hook_log("post_run", job)
+
+
+def logging_hooks():
+    from pydra.engine.hooks import TaskHooks
+
+    return TaskHooks(pre_run=hook_pre_run, pre_run_task=hook_pre_run_task, post_run_task=hook_post_run_task, post_run=hook_post_run)
+
+
+def hooks_called(cache_root, checksum):
+    path = os.path.join(os.path.dirname(str(cache_root)), f"hooks-{os.path.basename(str(cache_root))}.log")
+    try:
+        with _rt.real_open(path) as f:
+            return [ln.split()[0] for ln in f if ln.split()[1:] == [checksum]]
+    except FileNotFoundError:
+        return []
